@@ -20,7 +20,7 @@ func init() {
 	})
 	register("C05", &propDef{
 		Title: "Pack never leaks outside content and always emits a slug Unpack accepts",
-		Rules: []func(*Checker){ruleC05Link, ruleC05Deref, ruleDerefHeader("C05.derefheader"), ruleC05Resolve("C05.resolve"), rulePredSound("C05.pred"), ruleC05Pos, ruleC04Accept2("C05.accept"), rulePackerWriters("C05.allowlist"), ruleAllowBase("C05.allowbase"), ruleC04Relative("C05.relative"),
+		Rules: []func(*Checker){ruleC05Link, ruleC05Deref, ruleDerefHeader("C05.derefheader"), ruleC05Resolve("C05.resolve"), ruleNestedWalk("C05.nested"), rulePredSound("C05.pred"), ruleC05Pos, ruleC04Accept2("C05.accept"), rulePackerWriters("C05.allowlist"), ruleAllowBase("C05.allowbase"), ruleC04Relative("C05.relative"),
 			aliasRuleFiltered(ruleC16Readlink, "C16.readlink", "C05.chain", 1, func(o Oblig) bool { return !strings.Contains(o.Key, "(*slug.Packer).Pack/") })},
 		NotDecided: []string{
 			"content equality of dereferenced copies",
@@ -1514,22 +1514,173 @@ func ruleRootHops(id string) func(*Checker) {
 						}
 						cnd, neg := stripNot(ifi.Cond)
 						bo, ok := cnd.(*ssa.BinOp)
-						if !ok || bo.X != ssa.Value(ph) || (bo.Op != token.GEQ && bo.Op != token.GTR) {
+						if !ok || bo.X != ssa.Value(ph) {
 							continue
 						}
 						if _, isC := constInt(bo.Y); !isC {
 							continue
 						}
 						succ := 0
-						if neg {
-							succ = 1
+						switch bo.Op {
+						case token.GEQ, token.GTR:
+						case token.LSS, token.LEQ:
+							succ = 1 // the loop goes on while the counter is below the limit
+						default:
+							continue
 						}
-						if rej, _ := returnsNonNilErrorFrom(x.Succs[succ]); rej && !body[x.Succs[succ]] {
+						if neg {
+							succ = 1 - succ
+						}
+						if !body[x.Succs[succ]] {
 							bounded = true
 						}
 					}
 				}
 				c.check(bounded, id, p.FuncName(fn), fmt.Sprintf("link-following loop %d is bounded", n), p.Pos(ci.Pos()), "a counter incremented every time round and compared with a constant, the over-limit edge returning an error", "the loop that follows a chain of links has no counter that is incremented on every way round and checked against a limit: a source directory that is a cycle of links (a -> b -> a) keeps Pack here forever")
+			}
+		}
+	}
+}
+
+// C05.nested — the walk factory is handed the same things when it is called for
+// a dereferenced directory as when Pack calls it.
+func ruleNestedWalk(id string) func(*Checker) {
+	return func(c *Checker) {
+		c.rule(id, "Every filepath.Walk whose callback is built by the pack-walk factory agrees on the factory's parameters: (a) at each site the directory being walked is passed to the same string parameter of the factory (the one the callback makes names relative to), and (b) a parameter the callback merely passes on to its nested call (a captured variable used as an argument) is passed on in its own position. Same-typed arguments that change places compile; the nested walk then names its entries relative to the wrong directory (../../src/outside/…, which Unpack refuses) or judges links against the wrong root.", 2)
+		p := c.P
+		pc := getPackCtx(c, id)
+		if pc == nil {
+			return
+		}
+		type site struct {
+			walk *ssa.Call
+			fac  *ssa.Call
+		}
+		var sites []site
+		for _, fn := range p.Funcs {
+			if fn.Package() == nil || fn.Package().Pkg.Path() != p.PkgPath("slug") {
+				continue
+			}
+			for _, ci := range callsTo(fn, func(o *types.Func) bool { return isFunc(o, "path/filepath", "Walk") || isFunc(o, "path/filepath", "WalkDir") }) {
+				wc, ok := ci.(*ssa.Call)
+				if !ok || len(wc.Call.Args) < 2 {
+					continue
+				}
+				fc := callOf(canon(wc.Call.Args[1]))
+				if fc == nil || fc.Common().StaticCallee() == nil || !p.InModule(fc.Common().StaticCallee()) {
+					continue
+				}
+				sites = append(sites, site{wc, fc})
+			}
+		}
+		if len(sites) == 0 {
+			c.fail(id, "-", "walk sites", "-", "no filepath.Walk with a callback built by a module factory found")
+			return
+		}
+		// (a)
+		common := map[int]bool{}
+		first := true
+		for _, s := range sites {
+			here := map[int]bool{}
+			g := s.fac.Common().StaticCallee()
+			for i, a := range s.fac.Call.Args {
+				if i < len(g.Params) && isStringType(g.Params[i].Type()) && (canon(a) == canon(s.walk.Call.Args[0]) || sameLoc(a, s.walk.Call.Args[0])) {
+					here[i] = true
+				}
+			}
+			if first {
+				common, first = here, false
+				continue
+			}
+			for k := range common {
+				if !here[k] {
+					delete(common, k)
+				}
+			}
+		}
+		// the factory parameter the callback makes the walked paths relative to
+		capturedParam := func(v ssa.Value, g *ssa.Function) int {
+			var b ssa.Value
+			switch x := canon(v).(type) {
+			case *ssa.Parameter:
+				b = x
+			case *ssa.FreeVar:
+				if r := resolveFreeVar(x); len(r) == 1 {
+					b = r[0]
+				}
+			case *ssa.UnOp:
+				if fv, ok := x.X.(*ssa.FreeVar); ok && x.Op == token.MUL {
+					if al, ok := rootCell(fv).(*ssa.Alloc); ok {
+						if ws := cellWrites(al); len(ws) == 1 {
+							b = ws[0].Val
+						}
+					}
+				}
+			}
+			for k, gp2 := range g.Params {
+				if b == ssa.Value(gp2) {
+					return k
+				}
+			}
+			return -1
+		}
+		for _, s := range sites {
+			g := s.fac.Common().StaticCallee()
+			for _, w := range g.AnonFuncs {
+				if len(w.Params) == 0 {
+					continue
+				}
+				for _, ci := range callsTo(w, func(o *types.Func) bool { return isFunc(o, "path/filepath", "Rel") }) {
+					if canon(ci.Common().Args[1]) != ssa.Value(w.Params[0]) {
+						continue
+					}
+					if j := capturedParam(ci.Common().Args[0], g); j >= 0 && j < len(s.fac.Call.Args) {
+						a := s.fac.Call.Args[j]
+						okBase := canon(a) == canon(s.walk.Call.Args[0]) || sameLoc(a, s.walk.Call.Args[0])
+						c.check(okBase, id, p.FuncName(s.walk.Parent()), fmt.Sprintf("walk base is the walked directory (%s)", g.Params[j].Name()), p.Pos(s.fac.Pos()), "the parameter the callback takes walked paths relative to receives the directory handed to filepath.Walk", "the callback makes each walked path relative to its parameter "+g.Params[j].Name()+", but at this site that parameter is not given the directory that is walked (two string arguments have changed places): entry names come out as ../../… paths, which Unpack refuses")
+					}
+				}
+			}
+		}
+		last := sites[len(sites)-1]
+		c.check(len(common) > 0, id, p.FuncName(last.walk.Parent()), "the walked directory goes to the same factory parameter at every site", p.Pos(last.fac.Pos()), fmt.Sprintf("%d walk site(s) agree", len(sites)), "the directory handed to filepath.Walk is passed to different parameters of the callback factory at different sites (two string arguments have changed places): the nested walk makes entry names relative to the wrong directory")
+		// (b)
+		for _, s := range sites {
+			w := s.fac.Parent()
+			g := s.fac.Common().StaticCallee()
+			if w.Parent() != g {
+				continue // not the nested site
+			}
+			for i, a := range s.fac.Call.Args {
+				var cands []ssa.Value
+				switch x := canon(a).(type) {
+				case *ssa.FreeVar:
+					cands = resolveFreeVar(x)
+				case *ssa.UnOp:
+					// a parameter captured by reference: a cell of the factory written once, with the parameter
+					if fv, ok := x.X.(*ssa.FreeVar); ok && x.Op == token.MUL {
+						if al, ok := rootCell(fv).(*ssa.Alloc); ok {
+							if ws := cellWrites(al); len(ws) == 1 {
+								cands = []ssa.Value{ws[0].Val}
+							}
+						}
+					}
+				case *ssa.Parameter:
+					cands = []ssa.Value{x}
+				}
+				for _, b := range cands {
+					prm, ok := b.(*ssa.Parameter)
+					if !ok || prm.Parent() != g {
+						continue
+					}
+					j := -1
+					for k, gp2 := range g.Params {
+						if gp2 == prm {
+							j = k
+						}
+					}
+					c.check(j == i, id, p.FuncName(w), fmt.Sprintf("nested call passes %s on in its own position", prm.Name()), p.Pos(s.fac.Pos()), "same position", fmt.Sprintf("the captured parameter %s (position %d of the factory) is handed to the nested call as argument %d: two same-typed arguments have changed places", prm.Name(), j, i))
+				}
 			}
 		}
 	}
